@@ -150,7 +150,10 @@ def execute(scn, keep_log=False, hook=None):
         data = payload(m['fill'], m['len'])
         mode = common.msg_mode(st.cfg, m)
         # (a call that is parked inside send_pgn right now may or may not have taken its session number yet: not counted as certain)
-        sure = sum(1 for r in inflight[m['stack']] if r['kind'] == mode and r['done'] is None and not r.get('parked_call'))
+        me = (id(sim.current) if sim.current is not None else 0, sim.step_depth)
+        # (likewise a call another thread is making right now - it may still be refused; a call up this thread's own call chain - this
+        #  submission is nested in its transmission - has its number for certain)
+        sure = sum(1 for r in inflight[m['stack']] if r['kind'] == mode and r['done'] is None and not r.get('parked_call') and r.get('in_call', me) == me)
         # (a session the bus monitor saw finish while threads of the stack were parked / waiting for a parked lock holder is released that much later)
         blk = blocked.get(m['stack'], (0, 0))
         maybe = sum(1 for r in inflight[m['stack']] if r['kind'] == mode and (r['done'] is None or sim.now < r['done'] + release_slack + (
@@ -161,7 +164,7 @@ def execute(scn, keep_log=False, hook=None):
         before = snapshot(st)
         # registered before the call: a submission nested inside this call's own transmission must see this session as in use
         sa0 = st.cfg['cas'][m['ca']]['addr']
-        rec0 = {'kind': mode, 'sa': sa0, 'da': common.msg_dest(m), 'size': m['len'], 'done': None}
+        rec0 = {'kind': mode, 'sa': sa0, 'da': common.msg_dest(m), 'size': m['len'], 'done': None, 'in_call': me}
         inflight[m['stack']].append(rec0)
         nested_before = stats['reentrant_submissions']
         pre = m.get('pre') if sim.current is None and not held else None
@@ -184,11 +187,12 @@ def execute(scn, keep_log=False, hook=None):
             blocked[m['stack']] = (min(t_call, blocked.get(m['stack'], (t_call, 0))[0]) if blocked.get(m['stack'], (0, 0))[1] >= t_call else t_call, sim.now)
             # (also for a call that waited for a lock another thread held: time passed inside the call)
             # sessions that ended while the call was held are free
-            sure = sum(1 for r in inflight[m['stack']] if r is not rec0 and r['kind'] == mode and r['done'] is None and not r.get('parked_call'))
+            sure = sum(1 for r in inflight[m['stack']] if r is not rec0 and r['kind'] == mode and r['done'] is None and not r.get('parked_call') and r.get('in_call', me) == me)
             # ... and sessions opened from callbacks meanwhile may have used the capacity up
             # (threads that wait for a parked lock holder also release finished sessions later: the slack grows by the time spent in the call)
             maybe = max(maybe, sum(1 for r in inflight[m['stack']] if r is not rec0 and r['kind'] == mode and (
                 r['done'] is None or sim.now < r['done'] + release_slack + (sim.now - t_call))))
+        rec0.pop('in_call', None)
         if ok is not True:
             inflight[m['stack']].remove(rec0)
         if pre:
